@@ -87,6 +87,21 @@ CHECKS = {
             "store rows, write buffer and pool unchanged and nothing relayed; each sequence is closed by a fresh valid block "
             "that must get stored.",
             "Bulk-download deliveries (in_response_to != 0) are excluded by the property's wording.", "DESIGN.md section 4, C09"),
+    'C10': (MC, "stateless exploration of 2-3 real nodes under a scheduler that owns deliveries, accepts, timer steps, clock and "
+                "the fetch-peer choice: exhaustive DFS with canonical-state de-duplication (small 2-node configurations) and "
+                "iterative deviation bounding from a round-robin default (all configurations), each execution completed fairly",
+            "29 (33) configurations: chain pairs equal / ahead by 1, 3, 7 (up to 3 inventory batches, batch seam 3) / one at "
+            "genesis / forks at depth 2, 12, 17 (16, 25) with longer or equal branches, who dials whom, both dialling; 3-node "
+            "line, star and triangle with the longest chain at each position. Quick: all schedules with <= 1 deviation (one "
+            "configuration: 2) in the first 40 steps + exhaustive DFS (<= 2 ticks per node, no clock advance) of the 12 small "
+            "configurations; thorough: <= 2 (selected 3) deviations and DFS with a clock advance. Every execution is completed "
+            "fairly (advance 61 s, tick every node with the fetch-peer choice rotated, deliver everything; until ledgers are "
+            "unchanged for 3 rounds; 60-round horizon; > 3000 deliveries without a timer step = livelock) and then continued with "
+            "an injected fresh block and a broadcast transaction. Oracle: every head at the greatest initial height (+1 after the "
+            "block), complete chains, transaction in every pool, no exception escaped, no connection between nodes dropped, "
+            "every node relays each block / transaction at most once.",
+            "Liveness is decided as 'the fair completion reaches a fixed point within the horizon'. Reliable links; frame "
+            "granularity (C11 covers fragmentation).", "DESIGN.md section 4, C10"),
     'C11': (MC, "exhaustive enumeration of all 2-way and 3-way cuts of framed and corrupted streams against a reference framer",
             "116 (quick) / ~300 streams of 1-3 real messages and 30 corruption variants (each magic byte, over-limit and "
             "boundary lengths, short/long lengths, undecodable payloads, truncation); for each: whole, bytewise, every 2-way cut "
